@@ -278,12 +278,12 @@ theorem sub_fetch_ok_iff_has (s : Sub) (k : Bytes) :
   unfold Sub.fetch Store.has
   cases hd : s.down <;> cases hg : s.store.get? k <;> simp
 
-theorem fetchLoop_ok_iff (k : Bytes) (reads : List Sub) : ∀ (e : Option FetchErr) (t : Nat),
-    (∃ sz t', fetchLoop k reads e t = .ok sz t') ↔ ∃ s ∈ reads, s.down = false ∧ s.store.has k = true := by
+theorem fetchLoop_ok_iff (k : Bytes) (reads : List Sub) : ∀ (e f : Option FetchErr) (t : Nat),
+    (∃ sz t', fetchLoop k reads e f t = .ok sz t') ↔ ∃ s ∈ reads, s.down = false ∧ s.store.has k = true := by
   induction reads with
-  | nil => intro e t; cases e <;> simp [fetchLoop]
+  | nil => intro e f t; cases e <;> cases f <;> simp [fetchLoop]
   | cons s rest ih =>
-    intro e t
+    intro e f t
     cases hf : s.fetch k with
     | ok sz =>
       have := (sub_fetch_ok_iff_has s k).mp ⟨sz, hf⟩
@@ -303,29 +303,32 @@ theorem fetchLoop_ok_iff (k : Bytes) (reads : List Sub) : ∀ (e : Option FetchE
         | head => exact absurd h' hno
         | tail _ g => exact ⟨s', g, h'⟩
 
-theorem fetchLoop_ne_nilNil (k : Bytes) (reads : List Sub) : ∀ (e : Option FetchErr) (t : Nat),
-    (reads ≠ [] ∨ e ≠ none) → fetchLoop k reads e t ≠ .nilNil := by
+theorem fetchLoop_ne_nilNil (k : Bytes) (reads : List Sub) : ∀ (e f : Option FetchErr) (t : Nat),
+    (reads ≠ [] ∨ e ≠ none) → fetchLoop k reads e f t ≠ .nilNil := by
   induction reads with
   | nil =>
-    intro e t h
-    cases e with
-    | none => rcases h with h | h <;> exact absurd rfl h
-    | some f => simp [fetchLoop]
+    intro e f t h
+    cases f with
+    | some g => simp [fetchLoop]
+    | none =>
+      cases e with
+      | none => rcases h with h | h <;> exact absurd rfl h
+      | some g => simp [fetchLoop]
   | cons s rest ih =>
-    intro e t _
+    intro e f t _
     cases hf : s.fetch k with
     | ok sz => simp [fetchLoop, hf]
     | error er =>
       simp only [fetchLoop, hf]
-      exact ih _ _ (Or.inr (by simp))
+      exact ih _ _ _ (Or.inr (by simp))
 
 /-- the size handed out is the size some reachable read replica holds -/
-theorem fetchLoop_ok_size (k : Bytes) (reads : List Sub) : ∀ (e : Option FetchErr) (t sz t' : Nat),
-    fetchLoop k reads e t = .ok sz t' → ∃ s ∈ reads, s.down = false ∧ s.store.get? k = some sz := by
+theorem fetchLoop_ok_size (k : Bytes) (reads : List Sub) : ∀ (e f : Option FetchErr) (t sz t' : Nat),
+    fetchLoop k reads e f t = .ok sz t' → ∃ s ∈ reads, s.down = false ∧ s.store.get? k = some sz := by
   induction reads with
-  | nil => intro e t sz t' h; cases e <;> simp [fetchLoop] at h
+  | nil => intro e f t sz t' h; cases e <;> cases f <;> simp [fetchLoop] at h
   | cons s rest ih =>
-    intro e t sz t' h
+    intro e f t sz t' h
     cases hf : s.fetch k with
     | ok sz0 =>
       simp only [fetchLoop, hf, FetchOut.ok.injEq] at h
@@ -334,8 +337,79 @@ theorem fetchLoop_ok_size (k : Bytes) (reads : List Sub) : ∀ (e : Option Fetch
       exact ⟨s, by simp, (sub_fetch_ok s k sz0).mp hf⟩
     | error er =>
       simp only [fetchLoop, hf] at h
-      obtain ⟨s', hs', g⟩ := ih _ _ _ _ h
+      obtain ⟨s', hs', g⟩ := ih _ _ _ _ _ h
       exact ⟨s', List.mem_cons_of_mem _ hs', g⟩
+
+/-- a miss is reported as "not exist" only if no failure was remembered and every replica still to be
+asked answers "not exist" -/
+theorem fetchLoop_notExist (k : Bytes) (reads : List Sub) : ∀ (e f : Option FetchErr) (t t' : Nat),
+    f ≠ some .notExist → fetchLoop k reads e f t = .err .notExist t' →
+    f = none ∧ ∀ s ∈ reads, s.fetch k = .error .notExist := by
+  induction reads with
+  | nil =>
+    intro e f t t' hf h
+    cases f with
+    | some g =>
+      simp only [fetchLoop, FetchOut.err.injEq] at h
+      exact absurd (by rw [h.1]) hf
+    | none => exact ⟨rfl, by simp⟩
+  | cons s rest ih =>
+    intro e f t t' hf h
+    cases hs : s.fetch k with
+    | ok sz => simp [fetchLoop, hs] at h
+    | error er =>
+      simp only [fetchLoop, hs] at h
+      have hinv : (if f.isNone && er != .notExist then some er else f) ≠ some .notExist := by
+        split
+        · rename_i hc
+          simp only [Bool.and_eq_true, bne_iff_ne, ne_eq] at hc
+          intro g; exact hc.2 (Option.some.inj g)
+        · exact hf
+      obtain ⟨h1, h2⟩ := ih _ _ _ _ hinv h
+      have hfn : f = none ∧ er = .notExist := by
+        cases f with
+        | some g => simp at h1
+        | none =>
+          refine ⟨rfl, ?_⟩
+          cases er with
+          | notExist => rfl
+          | down => simp at h1
+      refine ⟨hfn.1, ?_⟩
+      intro s' hs'
+      cases hs' with
+      | head => rw [hs, hfn.2]
+      | tail _ g => exact h2 s' g
+
+/-- if no replica still to be asked serves the blob and a failure is remembered or one of them is
+down, the answer is that failure -/
+theorem fetchLoop_down (k : Bytes) (reads : List Sub) : ∀ (e f : Option FetchErr) (t : Nat),
+    (∀ s ∈ reads, ¬ (s.down = false ∧ s.store.has k = true)) →
+    (f = some .down ∨ (f = none ∧ ∃ s ∈ reads, s.down = true)) →
+    ∃ t', fetchLoop k reads e f t = .err .down t' := by
+  induction reads with
+  | nil =>
+    intro e f t _ h
+    rcases h with h | ⟨_, s, hs, _⟩
+    · subst h; exact ⟨t, rfl⟩
+    · cases hs
+  | cons s rest ih =>
+    intro e f t hno h
+    cases hs : s.fetch k with
+    | ok sz => exact absurd ((sub_fetch_ok_iff_has s k).mp ⟨sz, hs⟩) (hno s (by simp))
+    | error er =>
+      simp only [fetchLoop, hs]
+      apply ih _ _ _ (fun s' hs' => hno s' (List.mem_cons_of_mem _ hs'))
+      rcases h with h | ⟨hf, s', hs', hd⟩
+      · subst h; left; simp
+      · subst hf
+        cases er with
+        | down => left; simp
+        | notExist =>
+          right
+          refine ⟨by simp, ?_⟩
+          cases hs' with
+          | head => simp [Sub.fetch, hd] at hs
+          | tail _ g => exact ⟨s', g, hd⟩
 
 /-! ## StatBlobs -/
 
